@@ -15,7 +15,7 @@ RULE = ("random sequences of public calls (fit, fit_using_array, enroll, score, 
         "model's discipline; non-trivial = sequence of >= 3 calls touching >= 2 entry points")
 ASSUMPTIONS = ["references an estimator keeps by design to caller objects (ubm, k_means_trainer, init_method) are configuration, not trained "
                "parameters, and are not counted as aliasing; parameters the user assigns through setters are the user's own arrays"]
-SKIP_ATTRS = {"ubm", "k_means_trainer", "init_method", "random_state", "ubm_kwargs"}
+SKIP_ATTRS = {"ubm", "k_means_trainer", "init_method", "random_state", "ubm_kwargs", "map_alpha"}  # configuration kept by reference (scikit-learn style), not trained parameters
 
 
 class World:
@@ -80,10 +80,12 @@ def build_world(ctx):
     y = [int(a) for a in np.arange(N) % 2]
     W.labels = y
     W.labels_copy = list(y)
+    W.labels_arr = W.own("labels_array", np.array(y, dtype=np.int64))
     ubm = W.own_gmm("ubm", gen.mk_gmm(w, m, v))
     stats = [W.own_stats(f"stats{i}", ubm.acc_stats(X[i::3])) for i in range(3)]
     cent = W.own("init_centroids", X[:C].copy() + 0.1)
     models = W.own("model_means", m[None] + r.normal(size=(2, C, D)))
+    W.alpha = W.own("map_alpha", r.uniform(0.2, 0.8, C))
     W.C, W.D, W.X, W.ubm, W.stats, W.cent, W.models = C, D, X, ubm, stats, cent, models
     W.use_dask = bool(r.integers(0, 2))
     return W
@@ -130,6 +132,13 @@ def calls_for(W, rng):
         g.fit(Xin())
         return g, [g.log_likelihood(X)]
 
+    def gmm_map_alpha_array():
+        # fixed adaptation ratios given per Gaussian as an array (the caller's), with a count threshold no component reaches
+        g = GMMMachine(C, trainer="map", ubm=W.ubm, map_relevance_factor=None, map_alpha=W.alpha, max_fitting_steps=1,
+                       update_weights=True, mean_var_update_threshold=2.0 * len(X))
+        g.fit(Xin())
+        return g, None
+
     def gmm_map_unfitted():
         g = GMMMachine(C, trainer="map", ubm=W.ubm)
         return g, [g.log_likelihood(X), g.acc_stats(X)]
@@ -175,7 +184,7 @@ def calls_for(W, rng):
 
     def isv_array():
         mach = ISVMachine(1, ubm=W.ubm, em_iterations=1)
-        mach.fit_using_array(Xin(), np.array(W.labels))
+        mach.fit_using_array(Xin(), W.labels_arr)  # the caller's own label array (interleaved classes)
         return mach, [mach.enroll_using_array(X), mach.transform(X)]
 
     if not hasattr(W, "ivec_cfg"):  # drawn once per world: covariance update on / off, a floor that may lie above some UBM variance
@@ -189,7 +198,7 @@ def calls_for(W, rng):
         mach = cls_(1, ubm=ubm2, em_iterations=1) if cls_ is ISVMachine else cls_(1, 1, ubm=ubm2, em_iterations=1)
         ubm2.weights, ubm2.means, ubm2.variances = (np.array(a, dtype=float) for a in (W.ubm.weights, W.ubm.means, W.ubm.variances))
         kept = [np.array(a) for a in (ubm2.weights, ubm2.means, ubm2.variances)]
-        mach.fit_using_array(Xin(), np.array(W.labels))
+        mach.fit_using_array(Xin(), W.labels_arr)  # the caller's own label array (interleaved classes)
         now = [np.asarray(a) for a in (ubm2.weights, ubm2.means, ubm2.variances)]
         if not all(np.array_equal(a, b) for a, b in zip(kept, now)):
             W.extra = getattr(W, "extra", []) + [{"sig": "trained-ubm-modified:fa_fit_using_array_late_ubm", "what": "fit_using_array changed the parameters of a UBM its caller had already trained"}]
@@ -207,7 +216,7 @@ def calls_for(W, rng):
         return [wc, wh], [wc.transform(X), wh.transform(X)]
 
     out = {"kmeans_fit_0": (kmeans(0), []), "kmeans_fit_2": (kmeans(2), []), "gmm_ml_fit": (gmm_ml, []), "gmm_map_fit": (gmm_map, []),
-           "gmm_map_partial_fit": (gmm_map_partial, []), "gmm_map_unfitted_use": (gmm_map_unfitted, []),
+           "gmm_map_partial_fit": (gmm_map_partial, []), "gmm_map_alpha_array_fit": (gmm_map_alpha_array, []), "gmm_map_unfitted_use": (gmm_map_unfitted, []),
            "gmm_kmeans_init_fit": (gmm_kmeans_init, []), "acc_stats_transform": (acc, []), "stats_add": (add, []),
            "stats_iadd": (iadd, ["stats2.n", "stats2.sum_px", "stats2.sum_pxx"]), "stats_accumulate_from_empty": (accumulate, []), "fa_fit_using_array_late_ubm": (fa_late_ubm, []), "linear_scoring": (lin, []), "isv_fit_enroll_score": (isv, []),
            "jfa_fit_enroll_score": (jfa, []), "isv_array_entry_points": (isv_array, []), "ivector_fit_project": (ivec, []), "wccn_whitening": (linear, [])}
